@@ -27,7 +27,9 @@ use shredh::{
 };
 
 fn main() {
-    shredh::quiet_panics();
+    if std::env::var("LOUD").is_err() {
+        shredh::quiet_panics();
+    }
     let a = Args::from_env();
     match a.cmd() {
         "replay" => replay(&a),
